@@ -9,7 +9,7 @@ import numpy
 PROPERTY = "C05"
 LEVEL = "exploration"
 NEED_EXT = True
-REQUIRED = ["fit.optimality", "fit.quantile_fraction", "score.exact", "score.monotone",
+REQUIRED = ["fit.concurrent_pair", "fit.optimality", "fit.quantile_fraction", "score.exact", "score.monotone",
             "weights.duplication", "option.positive", "option.no_intercept"]
 RULE = ("cases drawn from (quantile x n x p x noise kind x weights x positive x fit_intercept x container); "
         "non-trivial = q != 0.5, n >= 5(p+1) and LP optimum > 0; distinct = distinct (config, data fingerprint)")
@@ -89,7 +89,7 @@ def run_case(case, ctx):
     X, y = make_data(rng, n, p, noise, positive)
     # container / dtype / scale classes: the loss is scale-equivariant and the estimator documents that the
     # target "will be cast to X's dtype if necessary"
-    variant = ["float64", "float64", "tiny-scale", "int-target", "int-features", "large-scale", "float32-features",
+    variant = ["float64", "bool-features", "tiny-scale", "int-target", "int-features", "large-scale", "float32-features",
                "fortran-order"][(sub // 3) % 8]
     S = 1.0            # magnitude of the targets; absolute slacks and the IRLS floor `delta` follow it
     y_unit = None
@@ -102,6 +102,14 @@ def run_case(case, ctx):
                 numpy.hstack([X, numpy.ones((n, 1))])) < p + 1:
             variant = "float64"
             X, y = make_data(rng, n, p, noise, positive)
+    elif variant == "bool-features":
+        # indicator columns (get_dummies output): X.dtype is bool
+        Xb = rng.rand(n, p) < rng.uniform(0.3, 0.7, size=p)
+        if numpy.linalg.matrix_rank(numpy.hstack([Xb.astype(float), numpy.ones((n, 1))])) == p + 1:
+            X = Xb
+            y = X.astype(float) @ rng.uniform(-2, 2, size=p) + rng.randn(n)
+        else:
+            variant = "float64"
     elif variant == "large-scale":
         y = y * 1e5 + 3e5
     elif variant == "tiny-scale":
@@ -116,8 +124,11 @@ def run_case(case, ctx):
             (sub // 24) % 5])
     ctx.cls("variant=" + variant)
     w = rng.randint(1, 5, size=n).astype(float) if weighted else None
+    frac_w = bool(weighted and variant in ("int-features", "bool-features", "float32-features") and sub % 2)
+    if frac_w:
+        w = w - 0.5          # 0.5, 1.5, 2.5, 3.5: not representable in the dtype of integer / boolean features
     cfg = {"q": q, "n": n, "p": p, "noise": noise, "positive": positive, "variant": variant,
-           "fit_intercept": fit_intercept, "weighted": weighted, "frame": frame, "sub": sub}
+           "fit_intercept": fit_intercept, "weighted": weighted, "fractional_weights": frac_w, "frame": frame, "sub": sub}
     ctx.cls("noise=" + noise)
     ctx.cls("q<0.5" if q < 0.5 else ("q=0.5" if q == 0.5 else "q>0.5"))
     if weighted:
@@ -265,7 +276,7 @@ def run_case(case, ctx):
                               li, lj, si, sj), cfg=cfg)
     # integer weights are equivalent to repeated rows
     if w is not None:
-        rep = w.astype(int)
+        rep = (w * 2).astype(int) if frac_w else w.astype(int)     # halves: repeat twice as often (same optimum)
         Xr = numpy.repeat(X, rep, axis=0)
         yr = numpy.repeat(y, rep)
         numpy.random.seed(sub % (2 ** 31))
@@ -276,6 +287,42 @@ def run_case(case, ctx):
         ctx.check(abs(la - lb) <= 2 * EPS_REL * max(la, lb) + A, "C05/fit/weights-vs-duplication",
                   "weighted fit and repeated-rows fit differ: pinball %.6g vs %.6g on the repeated data" % (
                       la, lb), cfg=cfg)
+    # two models fitted at the same time in two threads (another quantile, other targets, the same number of rows),
+    # with yield injection in the library's source: each is the model a lone fit gives
+    if sub % 10 == 0:
+        import threading
+        from vrt.sched import Perturb
+        q2 = 1 - q if q != 0.5 else 0.2
+        y_other = (y[::-1] * 1.0).copy() if y.dtype.kind == "f" else y[::-1].copy()
+        lone = [new().fit(X.copy(), y), new(quantile=q2).fit(X.copy(), y_other)]
+        for rep in range(2):
+            pair = [new(), new(quantile=q2)]
+            errs = []
+
+            def work(mm, yy):
+                try:
+                    mm.fit(X.copy(), yy)
+                except BaseException as ex_:   # noqa: B036
+                    errs.append(ex_)
+
+            with Perturb(("quantile_regression.py",), seed=sub + rep, prob=0.5, max_us=300) as pt:
+                ts = [threading.Thread(target=work, args=(pair[0], y)),
+                      threading.Thread(target=work, args=(pair[1], y_other))]
+                [t.start() for t in ts]
+                [t.join(120) for t in ts]
+            ctx.hit("fit.concurrent_pair")
+            ctx.extra["yields"] = ctx.extra.get("yields", 0) + pt.yields
+            if errs:
+                ctx.violation("C05/fit/concurrent/raised/%s" % type(errs[0]).__name__, str(errs[0])[:150], cfg=cfg)
+                break
+            same = all(numpy.allclose(a.coef_, b.coef_, rtol=1e-9, atol=1e-12 * S) and
+                       numpy.allclose(a.intercept_, b.intercept_, rtol=1e-9, atol=1e-12 * S)
+                       for a, b in zip(pair, lone))
+            if not same:
+                ctx.violation("C05/fit/concurrent/not-the-lone-fit", "two models fitted at the same time in two threads "
+                              "(q=%g and q=%g, %d rows each) are not the models fitted alone: the fits share state" % (
+                                  q, q2, n), cfg=cfg)
+                break
     ctx.sample({"cfg": cfg, "coef": m.coef_, "intercept": m.intercept_, "pinball_fit": lfit,
                 "lp_optimum": lstar, "n_iter": m.n_iter_})
 
